@@ -20,7 +20,7 @@ PREFIXES = {
 SAFE_HOLDERS = ["Jane Doe", "John Smith <john@example.org>", "ACME Corp.", "Ünï Cödé GmbH", "Mary Sue",
                 "Example Project Contributors", "Free Software Foundation Europe e.V. <https://fsfe.org>", "Li Wei"]
 LICENSES = ["MIT", "GPL-3.0-or-later", "Apache-2.0", "CC0-1.0", "BSD-3-Clause", "0BSD", "MIT OR Apache-2.0",
-            "GPL-3.0-or-later WITH Classpath-exception-2.0", "LicenseRef-Custom"]
+            "GPL-3.0-or-later WITH Classpath-exception-2.0", "LicenseRef-Custom", "GPL-2.0+", "LGPL-2.1+ OR MIT"]
 CONTRIBUTORS = ["Bob Builder", "Alice <alice@example.com>", "Carol"]
 
 TEMPLATES = {
